@@ -16,9 +16,13 @@ open QM QM.Packaging QM.Packaging.Codec
 structure C10State where
   a : Option Prog := none
   b : Option Prog := none
+  /-- `canonComputedB` is quadratic in the number of tuples: only programs up to this size are checked
+      (`(canon-limit n)`; the harness raises it in the thorough tier) -/
+  canonLimit : Nat := 120
 
-def sizes (P : Prog) : String :=
-  s!"consts={P.consts.size} fns={P.fns.size} builtins={P.builtins.size} tuples={P.tuples.size} types={P.types.size} canon-computed={P.canon.isEmpty || P.canonComputedB}"
+def sizes (limit : Nat) (P : Prog) : String :=
+  let cc := if P.canon.isEmpty || P.tuples.size > limit then "skipped" else toString P.canonComputedB
+  s!"consts={P.consts.size} fns={P.fns.size} builtins={P.builtins.size} tuples={P.tuples.size} types={P.types.size} canon-computed={cc}"
 
 def answer (P P' : Prog) (e e' : Nat) : String :=
   match checkRenamingExplain P P' e e' with
@@ -31,9 +35,13 @@ def c10Step (st : C10State) (req : List Sx) : C10State × String :=
     match parseProg parts with
     | .error e => (st, s!"bad-prog {e}")
     | .ok P =>
-      if slot == "A" then ({ st with a := some P }, s!"ok {sizes P}")
-      else if slot == "B" then ({ st with b := some P }, s!"ok {sizes P}")
+      if slot == "A" then ({ st with a := some P }, s!"ok {sizes st.canonLimit P}")
+      else if slot == "B" then ({ st with b := some P }, s!"ok {sizes st.canonLimit P}")
       else (st, "bad-request")
+  | [.list [.atom "canon-limit", n]] =>
+    match n.asNat with
+    | some n => ({ st with canonLimit := n }, "ok")
+    | none => (st, "bad-request")
   | [.list [.atom "check-renaming", ea, eb]] =>
     match st.a, st.b, ea.asNat, eb.asNat with
     | some P, some P', some e, some e' => (st, answer P P' e e')
